@@ -313,7 +313,8 @@ fn compact_ref(acc: &mut Acc) {
 pub fn count_impl_lines() -> usize {
 	let mut n = 0;
 	for f in ["src/codec.rs", "src/encode_like.rs", "src/compact.rs", "src/bit_vec.rs", "src/generic_array.rs"] {
-		if let Ok(s) = std::fs::read_to_string(format!("/repo/{}", f)) {
+		let root = std::env::var("REPO_ROOT").unwrap_or_else(|_| "/repo".to_string());
+		if let Ok(s) = std::fs::read_to_string(format!("{}/{}", root, f)) {
 			// stop at the test module
 			let body = s.split("#[cfg(test)]").next().unwrap_or("");
 			n += body.lines().filter(|l| l.contains("EncodeLike") && l.trim_start().starts_with("impl")).count();
